@@ -5,9 +5,9 @@ from vcheck import parse_edges, write_json, InfraError
 META = {
     "property_id": "C07",
     "level": "model_checking",
-    "technique": "TLA+ spec of trie commit over path- and hash-scheme node stores (TrieCommit.tla over MPT.tla) model-checked with TLC; every Commit transition and TLC-simulated multi-generation behaviours replayed on trie.Commit / trienode.NodeSet / rawdb key space / StackTrie",
+    "technique": "TLA+ spec of trie commit over path- and hash-scheme node stores (TrieCommit.tla over MPT.tla) and of the mechanism producing the node set (TrieCommitMech.tla: dirty flags, opTracer, PrevalueTracer, committer walk; refinement checked) model-checked with TLC; every Commit transition and TLC-simulated multi-generation behaviours replayed on trie.Commit / trienode.NodeSet / rawdb key space / StackTrie",
     "text": "TLC explores all (base set, modified set) pairs and commit generations over small key universes: after every commit the path store equals StoredPaths of the canonical new trie (no stale, no missing node), the new root reads back exactly the new contents, every node-set entry is allowed and carries the stored previous blob, and under the hash scheme all committed roots stay readable. Each Commit transition is executed on the real code (base committed from empty into rawdb memory stores, reopened under path or hash scheme, modified along a seeded route with cancelling detours, committed): node-set entries, previous values, minimal set inclusion, the rawdb trie-node key space listing (paths and reference-encoded blobs), read-back of new and earlier roots and the StackTrie OnTrieNode emission are compared with the model.",
-    "note": "Trusts TLC, triekit's reference encoder and RawStore (applies node sets with rawdb.WriteTrieNode/DeleteTrieNode). The model's node set is the minimal one; the implementation may additionally rewrite unchanged nodes with identical content (allowed by the Allowed predicate). triedb/pathdb and triedb/hashdb layering is not part of this check (raw key space only).",
+    "note": "Trusts TLC, triekit's reference encoder and RawStore (applies node sets with rawdb.WriteTrieNode/DeleteTrieNode). TrieCommit's node set is the minimal one (the implementation may additionally rewrite unchanged nodes with identical content: Allowed); TrieCommitMech predicts the node set exactly, and the simulated behaviours are compared entry by entry. triedb/pathdb and triedb/hashdb layering is not part of this check (raw key space only).",
     "design_ref": "3.2 C07",
 }
 
@@ -27,17 +27,23 @@ def run(ctx):
     ep = os.path.join(ctx.scratch, "edges.json")
     write_json(ep, edges)
     ctx.drive(drv, ["-mode", "edges", "-in", ep, "-pad", 0, "-nib", "0,1", "-keylen", 2], name="c07-edges", timeout=T)
-    # R: simulated multi-generation behaviours, 2-byte and 32-byte keys
-    for cfg, pad, nib, num, depth in ctx.pick([("trie/MCTrieCommitSim", 1, "0,1,15", 25, 45), ("trie/MCTrieCommitSim32", 61, "0,1,2,15", 15, 65)],
-                                              [("trie/MCTrieCommitSim", 1, "0,1,15", 400, 45), ("trie/MCTrieCommitSim32", 61, "0,1,2,15", 250, 65)]):
-        sim = ctx.tlc("trie/MCTrieCommit", cfg, simulate="num=%d" % num, depth=depth, tags=("MBT",), timeout=T, workers=4, name=os.path.basename(cfg))
+    # MC: the mechanism (dirty flags, opTracer, PrevalueTracer, committer walk) refines the abstract commit
+    ctx.model_check("trie/MCTrieCommitMech", "trie/MCTrieCommitMech", timeout=T * 2, workers=4, name="MCTrieCommitMech", coverage=ctx.thorough)
+    # R: simulated multi-generation behaviours with the exact node set predicted by the mechanism
+    # model, 2-byte and 32-byte keys; plus behaviours of the abstract model
+    for mod, cfg, pad, nib, num, depth in ctx.pick(
+            [("trie/MCTrieCommitMech", "trie/MCTrieCommitMechSim", 1, "0,1,15", 25, 50), ("trie/MCTrieCommitMech", "trie/MCTrieCommitMechSim32", 61, "0,1,2,15", 10, 65),
+             ("trie/MCTrieCommit", "trie/MCTrieCommitSim", 1, "0,1,15", 10, 45)],
+            [("trie/MCTrieCommitMech", "trie/MCTrieCommitMechSim", 1, "0,1,15", 400, 50), ("trie/MCTrieCommitMech", "trie/MCTrieCommitMechSim32", 61, "0,1,2,15", 250, 65),
+             ("trie/MCTrieCommit", "trie/MCTrieCommitSim", 1, "0,1,15", 100, 45), ("trie/MCTrieCommit", "trie/MCTrieCommitSim32", 61, "0,1,2,15", 60, 65)]):
+        sim = ctx.tlc(mod, cfg, simulate="num=%d" % num, depth=depth, tags=("MBT",), timeout=T, workers=4, name=os.path.basename(cfg))
         if sim.timeout or sim.error:
             raise InfraError("TLC simulation failed: %s\n%s" % (sim.error, sim.stdout[-2000:]))
         beh = sim.lines.get("MBT", [])
         if not beh:
             raise InfraError("no behaviours emitted")
-        bp = os.path.join(ctx.scratch, "mbt-%d.json" % pad)
+        bp = os.path.join(ctx.scratch, os.path.basename(cfg) + ".json")
         write_json(bp, beh)
-        ctx.drive(drv, ["-mode", "sim", "-in", bp, "-pad", pad, "-nib", nib, "-keylen", 3], name="c07-sim-pad%d" % pad, timeout=T)
+        ctx.drive(drv, ["-mode", "sim", "-in", bp, "-pad", pad, "-nib", nib, "-keylen", 3], name="c07-sim-" + os.path.basename(cfg), timeout=T)
     return ctx.finish(rule="MC: all (base, modified) key-value set pairs over 4 two-nibble keys with two value sizes, 3 hash-scheme generations; R: all Commit edges + simulated multi-generation behaviours",
                       assumptions=["hashes opaque and injective in the model", "node store = raw key space (no triedb layering)"])
